@@ -42,7 +42,10 @@ def scenarios(draw):
                 idx = [0]
         nfiles = 2 if src.bool(0.35) and len(idx) >= 2 else 1
         exps.append({"name": src.choice(["E", "exp", "S", "sample"]) + str(i + 1), "idx": idx, "nfiles": nfiles,
-                     "assign": [src.int(0, nfiles - 1) for _ in idx], "labels": src.bool(0.5)})
+                     "assign": [src.int(0, nfiles - 1) for _ in idx], "labels": src.bool(0.5),
+                     # experiments differ in what IsoQuant derives from the data itself: number of unaligned reads and
+                     # share of polyA-tailed reads (the `auto` polyA requirement is decided per experiment)
+                     "unmapped": src.choice([0, 0, 1, 2, 5]), "tails": src.choice(["as_is", "as_is", "all", "none"])})
     sc["reads"] = allreads
     sc["experiments"] = exps
     sc["order"] = src.shuffle(list(range(ne)))
@@ -54,6 +57,37 @@ def scenarios(draw):
     return sc
 
 
+def retail(r, mode, strands):
+    """copy of read r with its soft-clipped polyA/polyT tail kept, removed, or added (on the 3' side of its gene)"""
+    r = dict(r)
+    if mode == "as_is" or not r.get("cg"):
+        return r
+    cg = [list(x) for x in r["cg"]]
+    if cg and cg[0][0] == 4:
+        cg = cg[1:]
+    if cg and cg[-1][0] == 4:
+        cg = cg[:-1]
+    r.pop("sl", None)
+    r.pop("sr", None)
+    if mode == "all":
+        blocks = R.cigar_blocks(r["p"], r["cg"])
+        strand = None
+        for (c, gs, ge, st_) in strands:
+            if c == r["c"] and gs <= blocks[-1][1] and blocks[0][0] <= ge:
+                strand = st_
+                break
+        if strand is None:
+            strand = "-" if r["f"] & 16 else "+"
+        if strand == "+":
+            cg = cg + [[4, 25]]
+            r["sr"] = "A" * 25
+        else:
+            cg = [[4, 25]] + cg
+            r["sl"] = "T" * 25
+    r["cg"] = cg
+    return r
+
+
 def write_inputs(sc, d):
     ind = os.path.join(d, "in")
     os.makedirs(ind, exist_ok=True)
@@ -63,13 +97,17 @@ def write_inputs(sc, d):
     gtf = os.path.join(ind, "annot.gtf")
     build.write_gtf(sc, gtf)
     files = {}
+    strands = [(g["chr"], min(t["exons"][0][0] for t in g["transcripts"]),
+                max(t["exons"][-1][1] for t in g["transcripts"]), g["strand"]) for g in sc["genes"]]
     for e in sc["experiments"]:
         sub = {"chroms": sc["chroms"], "nfiles": e["nfiles"],
                "reads": []}
         for j, fi in zip(e["idx"], e["assign"]):
-            r = dict(sc["reads"][j])
+            r = retail(sc["reads"][j], e.get("tails", "as_is"), strands)
             r["file"] = fi
             sub["reads"].append(r)
+        for u in range(e.get("unmapped", 0)):
+            sub["reads"].append(S.unmapped_read("%s_u%d" % (e["name"], u), file=u % e["nfiles"]))
         files[e["name"]] = build.write_bams(sub, genome, ind, prefix=e["name"] + "_")
     return fa, gtf, files
 
